@@ -197,6 +197,17 @@ def abbreviate(case):
     return {"method": sp["method"], "t0": sp["t0"], "T": sp["T"], "constraints": sp["constraints"], "rng": case["rng"]}
 
 
+def degenerate(c):
+    """True when a shifted operand of the constraint cancels symbolically (CasADi drops it, and with it the exclusion of the
+    nodes it would reach outside the horizon): the declared relation is then not the one the reference enumerates."""
+    n = len(c["lhs"])
+    for i in range(n):
+        parts = [c["lhs"][i]] + [c[k][i if len(c[k]) == n else 0] for k in ("rhs", "lb", "ub") if k in c]
+        if any(E.has_op(e, "off") for e in parts) and E.lost_offsets(parts):
+            return True
+    return False
+
+
 def instance_slacks(c, envs_by_grid, tr, N, M):
     """Reference enumeration of the instances of one declared constraint at one numeric point."""
     out = []
@@ -237,6 +248,9 @@ def instance_slacks(c, envs_by_grid, tr, N, M):
 def check(case, ctx):
     sp = case["spec"]
     m = sp["method"]
+    if any(degenerate(c) for c in sp["constraints"]):
+        ctx.count("shifted_operand_cancels_symbolically")
+        return []
     rng = np.random.default_rng(case["rng"])
     N, M = m["N"], m["M"]
     dc = m["cls"] == "DC"
